@@ -1,20 +1,31 @@
 """Known-finding predicates for C02 (minimal cases only)."""
-from .casefmt import leaf_components
+
+
+def _norm_cr(v):
+    """The value with every CR / CRLF inside character strings replaced by LF, and whether
+    anything changed."""
+    if isinstance(v, str):
+        n = v.replace('\r\n', '\n').replace('\r', '\n')
+        return n, n != v
+    if isinstance(v, list):
+        xs = [_norm_cr(x) for x in v]
+        return [x for x, _ in xs], any(c for _, c in xs)
+    if isinstance(v, tuple):
+        xs = [_norm_cr(x) for x in v]
+        return tuple(x for x, _ in xs), any(c for _, c in xs)
+    if isinstance(v, dict):
+        xs = {k: _norm_cr(x) for k, x in v.items()}
+        return {k: x for k, (x, _) in xs.items()}, any(c for _, c in xs.values())
+    return v, False
 
 
 def xer_carriage_return_not_escaped(f):
-    """XER, round trip differs, the minimal value is a single character string that
-    contains U+000D and the decoded value is that string with CR -> LF (CRLF -> LF)."""
+    """XER, round trip differs, and the decoded value is exactly the encoded value with
+    CR -> LF (CRLF -> LF) inside its character strings - nothing else differs."""
     if f.get('codec') != 'xer' or f.get('kind') != 'roundtrip-mismatch':
         return False
-    t, v, env = f.get('_term'), f.get('_value'), f.get('_env') or {}
-    if t is None:
+    v = f.get('_value')
+    if v is None:
         return False
-    pairs = list(leaf_components(t, v, env))
-    if len(pairs) != 1:
-        return False
-    leaf, s = pairs[0]
-    if not isinstance(s, str) or '\r' not in s:
-        return False
-    normalised = s.replace('\r\n', '\n').replace('\r', '\n')
-    return (f.get('detail') or '') == repr(normalised)[:200]
+    normalised, changed = _norm_cr(v)
+    return changed and (f.get('detail') or '') == repr(normalised)[:4000]
